@@ -78,7 +78,7 @@ var wireFields = map[string][]string{
 // json:"-" fields that are allowed to be absent from the schema
 var neutralHidden = map[string]string{
 	"NodeMeta.Annotations": "free-form annotations attached by tools; not part of the model",
-	"NodeMeta.File": "position", "NodeMeta.Line": "position", "NodeMeta.Column": "position",
+	"NodeMeta.File":        "position", "NodeMeta.Line": "position", "NodeMeta.Column": "position",
 	"DefinitionMeta.Namespace":      "the qualified name is carried by the definition's name in the schema; namespaces are not wire-relevant",
 	"DefinitionMeta.TypeArguments":  "instantiation bookkeeping; instantiated types appear through SimpleType.TypeArguments",
 	"EnumDefinition.IsFlags":        "flags and enums share the same wire encoding (integer of the base type); the schema distinguishes them by the enclosing key (enum/flags) in TypeDefinitions.MarshalJSON",
